@@ -678,7 +678,11 @@ def check_C16(A: Analysis, tier):
         raise AnalysisError("constructor mode guard (an `if` on self.use_multiprocessing defining the *_mp / *_th "
                             f"primitives) not found exactly once in {CLS}.__init__ (found {len(ctor)})")
     cf, cif = ctor[0]
-    uses = [(f, n) for f, n in ifs if n is not cif]
+    from .locks import is_logger_assign
+    # (a mode test that only picks a logger / logs is no selection of primitives)
+    uses = [(f, n) for f, n in ifs if n is not cif and not (isinstance(n, ast.If) and all(
+        is_logging_stmt(s_) or is_logger_assign(s_) for s_ in list(n.body) + list(n.orelse)) and not _attrs(list(n.body) + list(n.orelse), "_mp")
+        and not _attrs(list(n.body) + list(n.orelse), "_th") and any(not is_logging_stmt(s_) for s_ in list(n.body) + list(n.orelse)))]
     flag_assign = None
     for n in func_nodes(init, ast.Assign):
         if len(n.targets) == 1 and self_attr(n.targets[0]) == "use_multiprocessing":
@@ -786,6 +790,52 @@ def check_C16(A: Analysis, tier):
                         f"would silently not hold" if mod == "multiprocessing" else f"self.{a} is not the expected {mod} primitive",
                         A.p.loc(init, st))
     rules.append(rd)
+
+    rg16 = Rule("C16", "C16.g", "no code registered to run around fork() / at exit touches the claim state: in multiprocessing mode the claim lists are "
+                "manager proxies shared by every process, so a hook that clears or rebuilds them in a freshly forked child clears every other "
+                "worker's claims (exclusion across processes is lost); in threading mode they are plain per-process lists", floor=0)
+    sync_attrs = set(A.sync.lists) | set(A.sync.conditions) | set(A.sync.locks)
+    for f in A.p.funcs.values():
+        if f.inherited or f.module.name in ("hashstoreclient", "__init__", "filehashstore_exceptions"):
+            continue
+        for c in func_nodes(f, ast.Call):
+            if norm(c.func) not in ("os.register_at_fork", "atexit.register", "multiprocessing.util.register_after_fork"):
+                continue
+            rg16.ob()
+            rg16.inst(f"{f.qual}:{c.lineno} {norm(c.func)}")
+            cbs = [k.value for k in c.keywords] + list(c.args)
+            seen_f, todo, touched = set(), [], []
+            # functools.partial(f, ...) runs f
+            cbs = [(cb.args[0] if isinstance(cb, ast.Call) and norm(cb.func).split(".")[-1] == "partial" and cb.args else cb) for cb in cbs]
+            for cb in cbs:
+                if isinstance(cb, ast.Attribute) and isinstance(cb.value, ast.Name) and cb.value.id in ("self", "cls", f.cls or "") and A.p.method(f.cls, cb.attr):
+                    todo.append(A.p.method(f.cls, cb.attr))
+                elif isinstance(cb, ast.Name) and (cb.id in A.p.funcs or f"{f.qual}.<locals>.{cb.id}" in A.p.funcs):
+                    todo.append(A.p.funcs.get(f"{f.qual}.<locals>.{cb.id}") or A.p.funcs[cb.id])
+                elif isinstance(cb, ast.Lambda):
+                    touched += [norm(x) for x in ast.walk(cb.body) if self_attr(x) in sync_attrs or (isinstance(x, ast.Call) and norm(x.func) in ("getattr", "setattr", "vars"))]
+                    todo += [A.p.method(f.cls, x.func.attr) for x in ast.walk(cb.body) if isinstance(x, ast.Call) and isinstance(x.func, ast.Attribute)
+                             and isinstance(x.func.value, ast.Name) and x.func.value.id == "self" and A.p.method(f.cls, x.func.attr)]
+                elif not isinstance(cb, ast.Constant):
+                    rg16.inst(f"{f.qual}:{c.lineno} callback {norm(cb)[:40]} not resolved (not judged)")
+            while todo:
+                g = todo.pop()
+                if g is None or g.qual in seen_f or len(seen_f) > 40:
+                    continue
+                seen_f.add(g.qual)
+                for x in ast.walk(g.node):
+                    if self_attr(x) in sync_attrs:
+                        touched.append(f"self.{self_attr(x)} in {g.qual}")
+                    if isinstance(x, ast.Call) and norm(x.func) in ("getattr", "setattr", "vars", "delattr") and x.args and norm(x.args[0]) == "self" \
+                            and not (len(x.args) > 1 and isinstance(x.args[1], ast.Constant) and x.args[1].value not in sync_attrs):
+                        touched.append(f"{norm(x)[:50]} in {g.qual}")
+                    if isinstance(x, ast.Call) and isinstance(x.func, ast.Attribute) and isinstance(x.func.value, ast.Name) and x.func.value.id == "self":
+                        todo.append(A.p.method(g.cls, x.func.attr))
+            if touched:
+                rg16.fail(f, c, f"`{norm(c)[:80]}` registers code that touches the claim state ({'; '.join(sorted(set(touched))[:3])}): run in a forked child (or at "
+                          "exit) it changes the lists that - in multiprocessing mode - all processes share, so identifiers claimed by other workers become free "
+                          "while those workers are still inside their calls", A.p.loc(f, c))
+    rules.append(rg16)
 
     re_ = Rule("C16", "C16.e", "the mode is selected by the documented variable USE_MULTIPROCESSING compared with "
                "'True' (library and client), and selects mp exactly for that value", floor=2)
